@@ -25,6 +25,11 @@ def cfg_of(cid):
     if c is None:
         rng = random.Random(cid[1] * 1000003 + 17)
         c = gen.packaged_variant(rng, _packaged) if cid[0] == 'variant' else gen.gen_config(rng)
+        if cid[1] % 2:
+            # the order in which a caller wrote the keys of the configuration dict must not matter
+            keys = list(c)
+            rng.shuffle(keys)
+            c = {k: c[k] for k in keys}
         if len(_cfg_cache) > 200:
             _cfg_cache.clear()
         _cfg_cache[key] = c
